@@ -6,7 +6,7 @@ from .common import *
 
 META = {
     'title': 'perms/knapsack: rotate-in/rotate-back mirror of permutk, strict/non-strict comparisons of nextperm, combink index list, exactsum result threading without shared state, dynprog None-before-order',
-    'expected_min': 7,
+    'expected_min': 14,
     'explanation': 'permutk, nextperm, combink, exactsum and dynprog are normalised and compared with restatements of the algorithms (lexicographic '
                    'successor with >= / <= so that repeated elements are stepped over; wrap-around for the last permutation; result list created per '
                    'top-level call); no mutable default argument is mutated; no undefined name is reachable.',
